@@ -135,6 +135,16 @@ CHECKS = {
         "so that ASan sees use-after-free/double free itself.",
    note="trusted: the model predicts constructor evaluation order; only 'too early' and the final balance are asserted (temporaries and function locals are released lazily)",
    design="4/C17"),
+ "C19": dict(
+   technique="process twin: the real bloc binary (ASan+UBSan build) vs the same program run through the library in the harness; observed from outside the process (stdout, --out file, stderr, exit status)",
+   text="Generated programs (G_model), programs returning every value type (incl. strings >= 80 bytes, tables, tuples, nulls), compile-time and run-time "
+        "failing programs, programs printing $ARG for argument vectors with spaces/quotes/non-ASCII/option-looking words, and programs containing every "
+        "source byte value 1..255 are run as `bloc file args`, `bloc - args` (stdin) with and without --out=; stdout/out-file bytes, the rendering "
+        "of the returned value, exit status == 0 iff compiled and ran without unhandled error, non-empty stderr with the library's line:column for "
+        "compile errors are compared with the library run. `bloc -e expr` is compared with evaluating the expression in the library. Programs fed to "
+        "`bloc -i` on stdin are compared by marker lines, and `save` of the session is reloaded through `bloc file`.",
+   note="trusted: harness rendering of returned values mirrors the documented CLI format (cliRender); interactive mode is only fed generated programs (never fuzz bytes: it has a shell escape); LD_LIBRARY_PATH contains only libblocc",
+   design="4/C19"),
  "C06": dict(
    technique="reference-interpreter monitor (python model of the documented loop/conditional semantics) over generated programs + post-run invariant hooks (control stack, symbol flags) + ASan/UBSan",
    text="Loop headers are enumerated bounded-exhaustively (bounds in {-2..2, INT64_MIN..+2, INT64_MAX-2.., null} x steps {absent,1,2,3,0,-1,null,INT64_MAX} x "
